@@ -421,7 +421,7 @@ impl Space for Big {
 }
 
 pub fn build(tier: Tier) -> CheckDef {
-    let (f, a, d) = tier.pick((2, 2, 2), (3, 3, 3));
+    let (f, a, d) = tier.pick((3, 2, 2), (4, 3, 3));
     CheckDef {
         prop: "C13",
         level: "model_checking",
